@@ -23,9 +23,14 @@ class ParallelEvaluator(Evaluator):
 
         from pathos.multiprocessing import ProcessingPool as Pool  # pyright: ignore
 
-        with Pool(len(indivs)) as pool:
-            fitnesses = pool.map(mapper, indivs)
-            for i, f in zip(indivs, fitnesses):
+        pending: list[Individual] = []
+        for ind in indivs:
+            if not ind.has_fitness(problem) and not any(ind is p for p in pending):
+                pending.append(ind)
+        if pending:
+            with Pool(len(pending)) as pool:
+                fitnesses = pool.map(mapper, pending)
+            for i, f in zip(pending, fitnesses):
                 i.set_fitness(problem, f)
                 self.register_evaluation()
-                yield i
+        yield from indivs
